@@ -318,7 +318,7 @@ func (in *Interp) checkPC(pc []*sym.Term, extra *sym.Term) sym.Result {
 	in.MS = in.S
 	t0 := time.Now()
 	r := in.S.Check(pc, extra)
-	if in.Cfg.Verbose > 0 && time.Since(t0) > 5*time.Second {
+	if in.Cfg.Verbose > 0 && time.Since(t0) > 3*time.Second {
 		var vals []string
 		for _, d := range in.trace {
 			if d.Kind == 1 {
@@ -342,7 +342,7 @@ func (in *Interp) checkPC(pc []*sym.Term, extra *sym.Term) sym.Result {
 	}
 	// the incremental (push/pop) mode of the solvers skips most preprocessing; a fresh process
 	// with plain assertions often answers at once what the incremental one gives up on
-	for _, kind := range []string{"z3", "z3-new", "cvc5"} {
+	for _, kind := range []string{"z3-new", "cvc5", "z3"} {
 		if in.flat != nil {
 			in.Sh.mu.Lock()
 			in.Sh.Stats.Queries += in.flat.Queries
